@@ -118,6 +118,16 @@ func mkSchedule(rng *rand.Rand, reply []byte, kind string, E int, serial bool) (
 		}
 		d += "/empty-read-flavours"
 	}
+	if rng.Intn(4) == 0 {
+		// one fragment arrives together with the timeout that ended its read (n > 0 and an error)
+		for i := range s.Steps {
+			if s.Steps[i].N > 0 && s.Steps[i].Err == "" && i+1 < len(s.Steps) {
+				s.Steps[i].Err = "deadline"
+				d += "/bytes-with-deadline"
+				break
+			}
+		}
+	}
 	return s, d
 }
 
